@@ -32,44 +32,20 @@ def privacy(prog, rep):
 
 
 def canonicalize_shape(prog, rep, only=None):
+    from . import c13
     n = 0
+    core, disp = c13.parsers(prog)
     for crate, ty in (('unic_langid_impl', 'LanguageIdentifier'), ('unic_locale_impl', 'Locale')):
         if only and crate != only:
             continue
-        fb = entry.find_method(prog, crate, ty, 'from_bytes')
         for fn in entry.find_fn(prog, crate, 'canonicalize'):
             if fn.count('::') != 1:
                 continue
             n += 1
             b = prog.bodies[fn]
-            e = pxm.PX(prog, opaque=set(fb))
-            segs = e.explore(fn)
-            bad = []
-            for s in segs:
-                if s.kind != 'return':
-                    bad.append('path ends in %s' % s.kind)
-                    continue
-                calls = [ev for ev in s.state.events if ev[0] == 'call' and ev[1] in fb]
-                if len(calls) != 1 or terms.access_path(calls[0][2][0]) != (1, ()):
-                    bad.append('the input is not parsed exactly once, as a whole')
-                    continue
-                tag = [v for k, v in s.state.facts.items() if k[0] == 'tag' and k[1][0] in ('call', 'pure') and k[1][1] in fb]
-                r = s.ret
-                if tag == ['pos']:
-                    x = r[3][0] if r[0] == 'adt' and r[2] == 'Ok' else None
-                    ok = x is not None and x[0] in ('call', 'pure') and x[1].endswith('ToString>::to_string') and terms.find_terms(x[2][0], lambda t: t[0] == 'pos' and t[1][0] in ('call', 'pure') and t[1][1] in fb)
-                    if not ok:
-                        bad.append('success does not return parsed.to_string(): %s' % e.short(r, 160))
-                    inner = terms.find_terms(r, lambda t: t[0] == 'pure' and t[1].split('::')[-1] in ('to_lowercase', 'to_uppercase', 'replace', 'trim', 'to_ascii_lowercase'))
-                    if inner:
-                        bad.append('the string is post-processed: %s' % inner[0][1])
-                elif tag == ['neg']:
-                    if not (r[0] == 'adt' and r[2] == 'Err'):
-                        bad.append('a parse failure is not returned as an error')
-                else:
-                    bad.append('result of from_bytes not tested')
-            rep.ob('canonicalize:%s' % crate, 'EMIT-CANON', fn, b['span'], '%s::canonicalize = %s::from_bytes(input)?.to_string() and nothing else' % (crate, ty), not bad and segs,
-                   detail='\n'.join(sorted(set(bad))[:4]), how='%d paths' % len(segs))
+            bad, npaths = c13.wiring_paths(prog, fn, 0 if ty == 'LanguageIdentifier' else 1, core, disp, wrap='to_string')
+            rep.ob('canonicalize:%s' % crate, 'EMIT-CANON', fn, b['span'], '%s::canonicalize = %s::from_bytes(input)?.to_string() and nothing else' % (crate, ty), not bad,
+                   detail='\n'.join(bad[:4]), how='%d paths' % npaths)
     rep.floor('canonicalize functions', n, 1 if only else 2)
 
 
